@@ -1274,6 +1274,11 @@ func c14R9(p *core.Program, r *core.Report) {
 		}
 		found = true
 		size := ast.Unparen(c.Args[1])
+		if rs, _ := core.Resolve(info, f.Body, size); rs != nil {
+			if _, isCall := ast.Unparen(rs).(*ast.CallExpr); isCall {
+				size = ast.Unparen(rs) // n := t.Results.NumFields(); make([]bool, n)
+			}
+		}
 		good, how := false, ""
 		if nc, ok := size.(*ast.CallExpr); ok && core.CalleeName(info, nc) == "(*go/ast.FieldList).NumFields" {
 			good, how = true, "FieldList.NumFields() counts the names of every field"
